@@ -73,6 +73,8 @@ struct Converter<MsgPackExtension> : private detail::VariantAttorney {
           *ptr++ = uint8_t(src.size() >> (sizeBytes - i - 1) * 8 & 0xff);
         *ptr++ = uint8_t(src.type());
         memcpy(ptr, src.data(), src.size());
+        // the node joins the pool of copied strings: terminate it like the others
+        ptr[src.size()] = 0;
         data->setRawString(str);
         return;
       }
